@@ -1,4 +1,5 @@
 import Driver.Block
+import BlockModes.Impl.MemWrapper
 /-
   Driver/Stream.lean — byte-level stream ciphers (`Ctr{32,64,128}{BE,LE}`, `Ofb`, `BeltCtr`) and the
   block-level cores (`CtrCore`, `BeltCtrCore`, `OfbCore`), impl and spec layers.
@@ -57,18 +58,21 @@ def streamImplMachine {σ : Type} (D : CoreDesc σ) (w : Nat) : Machine (Pool (W
     | some r => r
     | none =>
       let s := p.get d
-      let doApply (b : Bytes) (onErr : Bytes) : Pool (Wr σ) × String :=
-        match s.apply D.K w b with
-        | some r => (p.set r.2, "out " ++ toHex r.1)
-        | none => (p, "err " ++ toHex onErr)
+      -- the implementation layer runs the *checked memory-level* mirror of `try_apply_keystream_inout`
+      -- (`Impl/MemWrapper.lean`): in place, or into the output buffer's actual previous contents
+      let outcome (o : MemWr.Outcome σ) : Pool (Wr σ) × String :=
+        match o with
+        | .ok out s' => (p.set s', "out " ++ toHex out)
+        | .err out _ => (p, "err " ++ toHex out)
+        | .panic => (p, "panic")
       match toks with
       | ["apply", x] =>
         match fromHex x with
-        | some b => doApply b b
+        | some b => outcome (MemWr.applyMem D.K w s (IOBuf.inplace b))
         | none => (p, bad)
       | ["applyb", x, g] =>
         match fromHex x, fromHex g with
-        | some b, some gb => if b.length ≠ gb.length then (p, "err " ++ toHex gb) else doApply b gb
+        | some b, some gb => outcome (MemWr.applyB2b D.K w s b gb)
         | _, _ => (p, bad)
       | "seek" :: t :: n :: _hint =>
         match snMax t, n.toNat? with
